@@ -16,6 +16,7 @@ import DriverOps.Dtype
 import DriverOps.XDims
 import DriverOps.C19
 import DriverOps.State
+import DriverOps.IntWidth
 
 open Flox DriverOps
 
@@ -33,7 +34,8 @@ def ops : List (String × (List (List String) → String)) :=
     ("dtype", handleDtype), ("dchunks", handleDtype),
     ("xdims", handleXDims), ("xdims-spec", handleXDims), ("xskipna", handleXDims),
     ("c19validate", handleC19Validate), ("c19judge", handleC19Judge),
-    ("history", handleState), ("names", handleState), ("merge", handleState) ]
+    ("history", handleState), ("names", handleState), ("merge", handleState),
+    ("intwidth", handleIntWidth) ]
 
 def handle (line : String) : String :=
   let secs := sections line
